@@ -861,7 +861,7 @@ def check_C16(ctx):
                   "alternating traversal order) and in P separate processes; FNV hashes of the emitted code string and of the captured graph must be identical across all P*T runs, for both code generators. "
                   "logos-cli (real binary, both generators): the same input generated twice into different files gives identical bytes and --check accepts the other run's output. "
                   "Non-trivial: definitions with at least 8 graph states."]
-    n = 40 if ctx.tier == "quick" else 400
+    n = 100 if ctx.tier == "quick" else 600
     procs = 6 if ctx.tier == "quick" else 16
     threads = 4 if ctx.tier == "quick" else 8
     contexts = 0
